@@ -47,7 +47,8 @@ TRUSTED = ['translator tools/extract/finite_diff.py: REGENERATES (AST -> Gen/Fin
            'everything else of diff_ops.py that the '
            'model mirrors is HAND-WRITTEN in Model/FiniteDiff.lean (prologue of finite_diff, '
            '`/ dx`, size-check semantics, line-wise N-d action, Gradient/Divergence/Laplacian '
-           'accumulation; round 5: the `for axis in range(ndim)` loops of the three _call methods '
+           'accumulation; round 6: the epilogue `out /= dx` is READ into Gen dxScale and '
+           'interpreted by fdBy in the driver ops fd / mat; round 5: the `for axis in range(ndim)` loops of the three _call methods '
            'are no longer pinned but READ into Gen accProg - finite_diff argument sources, dx or '
            'dx**2, literal or own method, += / -= / assign-on-first-axis - and interpreted by '
            'loopAccN / loopCompN in the driver op ndn) and only PINNED as '
